@@ -166,4 +166,22 @@ def tokens (partialOk retain : Bool) (refs : List (List Tok)) (slices : List (In
   (List.range refs.length).map fun n =>
     tokensRow partialOk retain (refs.getD n []) (slices.getD n (0, 0)) (refLens.map fun l => l.getD n 0)
 
+/-! ## chunking a data directory: one utterance -/
+
+/-- The windows the chosen policy prescribes for one utterance taken alone: its `T` frames
+('fixed'), its alignment ('ali'), its token segments with the end of the last token as length
+('ref'). -/
+def dirWindows (policy : Policy) (lobe : Nat) (wt : WinType) (validOnly : Bool) (u : Utt) : List Win :=
+  match policy with
+  | .fixed => fixed lobe wt validOnly [u.T]
+  | .ali => ali lobe wt validOnly [u.ali] [u.T]
+  | .ref => ref lobe wt validOnly [u.ref] [u.ref.length] [none]
+
+/-- The chunked utterance: one chunk per window, holding the utterance's tokens restricted to the
+window (`tokensRow`). -/
+def dirSpec (policy : Policy) (lobe : Nat) (wt : WinType) (validOnly partialOk retain : Bool) (u : Utt) :
+    List (Win × List Tok) :=
+  (dirWindows policy lobe wt validOnly u).map fun w =>
+    (w, tokensRow partialOk retain u.ref (w.start, w.stop) none)
+
 end PdtVerif.SlicePolicy
